@@ -23,6 +23,8 @@ pub mod c19_gen;
 pub mod c19_ops;
 pub mod c19_world;
 #[cfg(feature = "shuttle")]
+pub mod c19b;
+#[cfg(feature = "shuttle")]
 pub mod c20;
 
 pub fn all() -> Vec<&'static dyn Check> {
@@ -31,6 +33,7 @@ pub fn all() -> Vec<&'static dyn Check> {
     #[cfg(feature = "shuttle")]
     {
         v.push(&c17::C17);
+        v.push(&c19b::C19B);
         v.push(&c20::C20);
     }
     v
